@@ -111,7 +111,7 @@ class Expect:
                         "returned although a definite error is present"))
             out.extend(self.binding_clauses(s, r))
         else:
-            out.append(("accept-lower", ["C03", "C02"], z3.Not(self.all_fine()), "raised although the input is fine"))
+            out.append(("accept-lower", ["C03", "C02", "C01"], z3.Not(self.all_fine()), "raised although the input is fine"))
             e = r[1]
             if e.ty is not None:
                 out.append(("raises-closed", ["C04"], z3.BoolVal(issubclass(e.ty, LoadError)),
@@ -128,11 +128,11 @@ class Expect:
         out = []
         ctor_t = self.run.constructor.t if self.run.constructor is not None else None
         calls = [c for c in s.calls if ctor_t is not None and isinstance(c[0], z3.ExprRef) and z3.eq(c[0], ctor_t)]
-        out.append(("constructor-once", ["C08"], z3.BoolVal(len(calls) == 1), f"{len(calls)} constructor calls"))
+        out.append(("constructor-once", ["C08", "C01"], z3.BoolVal(len(calls) == 1), f"{len(calls)} constructor calls"))
         if len(calls) != 1:
             return out
         _, at, args, kwargs = calls[0]
-        out.append(("result-is-constructed", ["C08", "C03"], self.interp.term(s, r[1]) == T.F_res(ctor_t, at), ""))
+        out.append(("result-is-constructed", ["C08", "C03", "C01"], self.interp.term(s, r[1]) == T.F_res(ctor_t, at), ""))
         params = self.order
         by_param = {(self.fields[n].param or n): n for n in params}
         bound = {}
@@ -142,7 +142,7 @@ class Expect:
         for k, a in kwargs.items():
             if k != "**":
                 if k not in by_param:
-                    out.append(("param-name", ["C08"], z3.BoolVal(False), f"keyword {k} is not a constructor parameter"))
+                    out.append(("param-name", ["C08", "C01"], z3.BoolVal(False), f"keyword {k} is not a constructor parameter"))
                     continue
                 k = by_param[k]
                 if k in bound:
@@ -167,14 +167,14 @@ class Expect:
             if got is None:
                 # omitted parameter: the model's own default applies — only legal when the field is absent
                 goal = z3.Not(present) if not f.required else z3.BoolVal(False)
-                out.append((f"binding:{fname}", ["C03", "C08"], goal, "parameter omitted although the field is present"))
+                out.append((f"binding:{fname}", ["C03", "C08", "C01"], goal, "parameter omitted although the field is present"))
                 continue
             a = got[1]
             at_ = self.interp.term(s, a)
             loaded = T.F_res(self.run.loaders[fname].t, sn.t)
             dflt = self.default_ok(s, f, a)
             goal = z3.And(z3.Implies(present, at_ == loaded), z3.Implies(z3.Not(present), z3.BoolVal(bool(dflt))))
-            out.append((f"binding:{fname}", ["C03", "C08", "C02"], goal,
+            out.append((f"binding:{fname}", ["C03", "C08", "C02", "C01"], goal,
                         f"parameter {fname} is not the loaded value at {path} / its true default"))
         # extras
         star = kwargs.get("**")
